@@ -70,7 +70,7 @@ def cases(tier):
             out.append(c.to_json())
 
     offs = (-7, -6, -5, -4, -3, -1, 0, 1) if tier == "quick" else tuple(range(-8, 3))
-    ks = (1, 2) if tier == "quick" else (1, 2, 3)
+    ks = (1, 2) if tier == "quick" else (1, 2, 3, 4)
     modes = ("none", "iam", "record")
     # (A) sizes
     for mc in SIZES:
@@ -87,6 +87,10 @@ def cases(tier):
                                 continue
                             add(c={"maxapdu": mc, "window": 4}, s={"maxapdu": ms, "window": 4}, reqs=[(n, 0)], peerinfo=mode)
                         add(c={"maxapdu": mc, "window": 4}, s={"maxapdu": ms, "window": 4}, reqs=[(0, n)], peerinfo="none")
+                        if tier != "quick":
+                            for mode in ("iam", "record"):
+                                add(c={"maxapdu": mc, "window": 4}, s={"maxapdu": ms, "window": 4}, reqs=[(0, n)], peerinfo=mode)
+                            add(c={"maxapdu": mc, "window": 4}, s={"maxapdu": ms, "window": 4}, reqs=[(n, n)], peerinfo="iam")
     # (B) segmentation support
     segs = ("segmentedBoth", "segmentedTransmit", "segmentedReceive", "noSegmentation")
     for sc in segs:
@@ -95,6 +99,12 @@ def cases(tier):
                 for mode in modes:
                     add(c={"seg": sc}, s={"seg": ss}, reqs=[(n, 0)], peerinfo=mode)
                     add(c={"seg": sc}, s={"seg": ss}, reqs=[(0, n)], peerinfo=mode)
+            if tier != "quick":
+                for size in (128, 480, 1476):
+                    for n in (payload_for(size - 4), payload_for(size - 3), payload_for(size - 2), payload_for(3 * size)):
+                        for mode in modes:
+                            add(c={"seg": sc, "maxapdu": size}, s={"seg": ss, "maxapdu": size}, reqs=[(n, 0)], peerinfo=mode)
+                            add(c={"seg": sc, "maxapdu": size}, s={"seg": ss, "maxapdu": size}, reqs=[(0, n)], peerinfo=mode)
     # (C) max segments
     for xc in (None, 2, 4, 8, 64, 65):
         for xs in (None, 2, 4, 8, 64, 65):
